@@ -452,7 +452,7 @@ def rings_e1(rngN, rngC):
         from mouette.procedural import rings as R
         N, cover = _pick(sx, "N", rngN), _pick(sx, "n_cover", rngC)
         kind = _pick(sx, "kind", ["ring", "ring-open", "flat_ring"])
-        defect = [0.0, 0.5, 2.0][sx.choice("defect", 3)]
+        defect = [0.0, 0.5, 2.0, 5.9, 7.0][sx.choice("defect", 5)]     # (5.9: apex above the initial bracket; 7.0: clamped to 2 pi - 0.01)
         tag = " [%s]" % kind
         try:
             if kind == "flat_ring":
@@ -471,6 +471,21 @@ def rings_e1(rngN, rngC):
         for i in range(1, len(m.vertices)):
             p = [float(x) for x in m.vertices[i]]
             sx.check_eq(math.hypot(p[0], p[1]), 1.0, "ring rim vertices lie on the unit circle" + tag, tol=1e-9)
+        if kind != "flat_ring" and cover == 1:
+            # the apex is found by bisection on transcendental functions (outside symbolic reach): the achieved defect is
+            # measured on the concrete result, 2 pi minus the sum of the apex angles
+            apex = [float(x) for x in m.vertices[0]]
+            tot = 0.
+            for F in [tuple(int(v) for v in f) for f in m.faces]:
+                i0 = F.index(0)
+                a = [float(x) for x in m.vertices[F[(i0 + 1) % 3]]]
+                b = [float(x) for x in m.vertices[F[(i0 + 2) % 3]]]
+                u, w = [a[k] - apex[k] for k in range(3)], [b[k] - apex[k] for k in range(3)]
+                cr = [u[1] * w[2] - u[2] * w[1], u[2] * w[0] - u[0] * w[2], u[0] * w[1] - u[1] * w[0]]
+                tot += math.atan2(math.sqrt(sum(x * x for x in cr)), sum(u[k] * w[k] for k in range(3)))
+            want = max(min(defect, 2 * math.pi - 0.01), 0.)
+            sx.check(abs((2 * math.pi - tot) - want) < 1e-4, "a ring's apex has the requested angle defect" + tag,
+                     detail="N=%d requested %.4f (clamped %.4f) achieved %.6f" % (N, defect, want, 2 * math.pi - tot))
     return h
 
 
